@@ -136,6 +136,13 @@ def extract(ctx, modname):
 
 def _state_test(a):
     """('in', [state names]) / ('notin', [...]) for a comparison of self._state with enum members, else None"""
+    if isinstance(a, ast.BoolOp) and len(a.values) >= 2:
+        # `s == A or s == B` is `s in (A, B)`; `s != A and s != B` is `s not in (A, B)`
+        parts = [_state_test(v) for v in a.values]
+        want = "in" if isinstance(a.op, ast.Or) else "notin"
+        if all(p is not None and p[0] == want for p in parts):
+            return (want, [n for p in parts for n in p[1]])
+        return None
     if not (isinstance(a, ast.Compare) and len(a.ops) == 1):
         return None
     l, op, r = a.left, a.ops[0], a.comparators[0]
